@@ -65,10 +65,11 @@ func ResolveStateConflictsV2(
 	userIDForSender spec.UserIDForSender,
 	isRejectedFn IsRejected,
 ) []PDU {
+	// The create event is an auth event of everything else in the room, but a
+	// room that consists of nothing but its create event has no auth events.
 	var createEvent PDU
-	for _, ev := range authEvents {
-		if ev.Type() == spec.MRoomCreate && ev.StateKeyEquals("") {
-			createEvent = ev
+	for _, events := range [][]PDU{authEvents, unconflicted, conflicted} {
+		if createEvent = getCreateEvent(events); createEvent != nil {
 			break
 		}
 	}
